@@ -93,8 +93,9 @@ def _rewrite_returns(stmts, make):
     return out
 
 
-def flatten(repo, fn, depth=2, only=None):
-    """copy of fn.node with eligible helper calls inlined (see module docstring)"""
+def flatten(repo, fn, depth=2, only=None, exprs=False):
+    """copy of fn.node with eligible helper calls inlined (see module docstring); exprs=True also reads one-expression helpers (`return <expr>`) in place
+    where they are called inside a larger expression (an index, an operand of a comparison)"""
     counter = [0]
 
     def expand_body(body, owner, d, stack):
@@ -185,6 +186,83 @@ def flatten(repo, fn, depth=2, only=None):
         ast.fix_missing_locations(ast.Module(body=body, type_ignores=[]))
         return expand_body(body, callee if callee.cls is not None or True else owner, d - 1, stack | {callee.q})
 
+    def expr_helper(call, owner, d, stack):
+        """`self.h(a)` / `Class.h(a)` / `h(a)` standing inside a larger expression, where h is `return <expression>` and nothing else: the expression, with the
+        arguments in place of the parameters; None when the call is anything else"""
+        if d <= 0 or any(k.arg is None for k in call.keywords) or any(isinstance(a, ast.Starred) for a in call.args):
+            return None
+        callee, bound = _callee(repo, owner, call)
+        if callee is None or callee.q in stack or (only is not None and callee.name not in only):
+            return None
+        cbody = body_without_doc(callee.node)
+        if len(cbody) != 1 or not isinstance(cbody[0], ast.Return) or cbody[0].value is None:
+            return None
+        a_ = callee.node.args
+        if a_.vararg is not None or a_.kwarg is not None or a_.kwonlyargs or getattr(callee, "is_property", False):
+            return None
+        expr = cbody[0].value
+        if any(isinstance(x, (ast.Yield, ast.YieldFrom, ast.Lambda, ast.NamedExpr, ast.ListComp, ast.SetComp, ast.DictComp, ast.GeneratorExp, ast.Await)) for x in ast.walk(expr)):
+            return None
+        params = [x.arg for x in a_.args]
+        if params and params[0] in ("self", "cls") and bound:
+            if params[0] == "cls" and any(isinstance(x, ast.Name) and x.id == "cls" for x in ast.walk(expr)):
+                return None
+            recv = call.func.value if isinstance(call.func, ast.Attribute) else None
+            if params[0] == "self" and not (isinstance(recv, ast.Name) and recv.id == "self"):
+                return None
+            params = params[1:]
+        defaults = a_.defaults
+        dmap = dict(zip(params[len(params) - len(defaults):], defaults)) if defaults else {}
+        mapping = dict(zip(params, call.args))
+        if len(call.args) > len(params):
+            return None
+        for k in call.keywords:
+            if k.arg not in params or k.arg in mapping:
+                return None
+            mapping[k.arg] = k.value
+        for pname in params:
+            if pname not in mapping:
+                if pname not in dmap:
+                    return None
+                mapping[pname] = dmap[pname]
+        uses = {}
+        for x in ast.walk(expr):
+            if isinstance(x, ast.Name) and x.id in mapping:
+                uses[x.id] = uses.get(x.id, 0) + 1
+        for pname, arg in mapping.items():
+            simple = isinstance(arg, (ast.Name, ast.Constant)) or (isinstance(arg, ast.Attribute) and isinstance(arg.value, ast.Name))
+            if not simple and (uses.get(pname, 0) != 1 or any(isinstance(y, ast.Call) for y in ast.walk(arg))):
+                return None        # an argument that is computed is put in place only when it is read exactly once and calls nothing
+        new = _Subst(mapping, {}).visit(copy.deepcopy(expr))
+        return inline_in_expr(new, callee, d - 1, stack | {callee.q})
+
+    def inline_in_expr(e, owner, d, stack):
+        class T(ast.NodeTransformer):
+            def visit_Call(self, n):
+                self.generic_visit(n)
+                r = expr_helper(n, owner, d, stack)
+                return ast.copy_location(r, n) if r is not None else n
+
+            def visit_Lambda(self, n):
+                return n
+        return T().visit(e)
+
+    def inline_exprs(st, owner, d, stack):
+        """a copy of the statement with expression helpers read in place, in its own expressions (not in nested blocks)"""
+        st = copy.copy(st)
+        if isinstance(st, (ast.FunctionDef, ast.AsyncFunctionDef, ast.ClassDef)):
+            return st
+        for field, value in ast.iter_fields(st):
+            if field in ("body", "orelse", "finalbody", "handlers", "cases"):
+                continue
+            if isinstance(value, ast.expr):
+                setattr(st, field, inline_in_expr(copy.deepcopy(value), owner, d, stack))
+            elif isinstance(value, list) and value and isinstance(value[0], ast.expr):
+                setattr(st, field, [inline_in_expr(copy.deepcopy(v), owner, d, stack) for v in value])
+            elif isinstance(value, list) and value and isinstance(value[0], ast.withitem):
+                setattr(st, field, [ast.withitem(context_expr=inline_in_expr(copy.deepcopy(v.context_expr), owner, d, stack), optional_vars=v.optional_vars) for v in value])
+        return st
+
     def expand_stmt(st, owner, d, stack):
         if isinstance(st, ast.Expr) and isinstance(st.value, ast.Call):
             r = try_inline(st.value, owner, d, stack, "expr")
@@ -202,7 +280,7 @@ def flatten(repo, fn, depth=2, only=None):
             r = try_inline(st.value, owner, d, stack, "return")
             if r is not None:
                 return r
-        st = copy.copy(st)
+        st = inline_exprs(st, owner, d, stack) if exprs else copy.copy(st)
         for field in ("body", "orelse", "finalbody"):
             b = getattr(st, field, None)
             if isinstance(b, list) and b and isinstance(b[0], ast.stmt):
